@@ -133,6 +133,96 @@ class Ref:
             return None
         return "[" + ",".join("%d:%s" % (c, B(s)) for c, s in sorted(self.cs)) + "]"
 
+    # ---------------------------------------------------------------- C01 / C02: the canonical image
+    def in_domain(self):
+        """the quantifier of C01/C02: at most one pointer/string/c-string per cell, cells do not overlap and lie inside
+        the data, pointer targets and labels <= size, strings NUL-free, buckets non-empty"""
+        cells = [c for c, _ in self.cs]
+        if len(set(cells)) != len(cells) or any(c in self.text or c in self.ptr for c in cells):
+            return False
+        if any(c in self.ptr for c in self.text):
+            return False
+        occupied = sorted(set(cells) | set(self.text) | set(self.ptr))
+        if any(y - x < 4 for x, y in zip(occupied, occupied[1:])) or any(k + 4 > len(self.d) for k in occupied):
+            return False
+        if any(v > len(self.d) for v in self.ptr.values()) or any(k > len(self.d) for k in self.lab):
+            return False
+        if any(0 in s for s in self.text.values()) or any(0 in n for b in self.lab.values() for n in b) or any(0 in s for _, s in self.cs):
+            return False
+        return True
+
+    def canonical_image(self):
+        """C02's canonical file image (with C01's c-string pool when c-strings are pending): header totals that match the
+        bytes; internal pointers by ascending address (the pool pointers among them), then string pointers grouped by string
+        in first-use order, each group ascending; labels by address (LE) or by name then address (BE); text section =
+        label names in emission order then strings in first-use order, every distinct string once."""
+        end = "<" if self.e == "L" else ">"
+        u32 = lambda v: struct.pack(end + "I", v & 0xFFFFFFFF)
+        size = len(self.d)
+        # c-string pool: distinct strings sorted by their bytes, NUL-terminated, padded to 4
+        pool = bytearray()
+        pool_off = {}
+        for s in sorted(set(s for _, s in self.cs)):
+            pool_off[s] = len(pool)
+            pool += s + b"\0"
+        while len(pool) % 4:
+            pool.append(0)
+        ptrs = dict(self.ptr)
+        for c, s in self.cs:
+            ptrs[c] = size + pool_off[s]
+        ptr_cells = sorted(ptrs)
+        # labels
+        if self.e == "L":
+            lab_order = sorted((k for k in self.lab), key=lambda k: k)
+        else:
+            lab_order = sorted((k for k in self.lab), key=lambda k: (self.lab[k], k))
+        text_items = []
+        off = {}
+        tsec = bytearray()
+
+        def add(s):
+            if s not in off:
+                off[s] = len(tsec)
+                tsec.extend(s + b"\0")
+            return off[s]
+        ltab = []
+        for k in lab_order:
+            for name in self.lab[k]:
+                ltab.append((k, add(name)))
+        # strings in first-use order (ascending cell), grouped
+        groups = {}
+        order = []
+        for c in sorted(self.text):
+            s = self.text[c]
+            o = add(s)
+            if o not in groups:
+                groups[o] = []
+                order.append(o)
+            groups[o].append(c)
+        ptab = list(ptr_cells)
+        for o in order:
+            ptab += sorted(groups[o])
+        text_start = size + len(pool) + 4 * len(ptab) + 8 * len(ltab)
+        data = bytearray(self.d)
+        for c in ptr_cells:
+            data[c:c + 4] = u32(ptrs[c])
+        for c in sorted(self.text):
+            data[c:c + 4] = u32(text_start + off[self.text[c]])
+        body = bytes(data) + bytes(pool) + b"".join(u32(x) for x in ptab) + b"".join(u32(a) + u32(o) for a, o in ltab) + bytes(tsec)
+        fsz = len(body) + 32
+        return u32(fsz) + u32(size + len(pool)) + u32(len(ptab)) + u32(len(ltab)) + bytes(16) + body, bytes(data) + bytes(pool), ptrs
+
+    def expected_reparsed_state(self):
+        """C01: the archive parsed back from the image: same size plus the pool, same strings, pointers (plus the published
+        c-strings), labels; raw bytes equal outside pointer cells (here: the patched data)."""
+        _, data, ptrs = self.canonical_image()
+        r = Ref(self.e)
+        r.d = bytearray(data)
+        r.text = dict(self.text)
+        r.ptr = dict(ptrs)
+        r.lab = {k: list(v) for k, v in self.lab.items() if v}
+        return r.state(1)
+
     # ---------------------------------------------------------------- dispatcher
     def apply(self, op, args):
         """returns result string, or None when this operation is outside the reference's scope"""
@@ -346,7 +436,7 @@ class Ref:
 
 def n_args(op, toks, i):
     """number of argument tokens of op at toks[i]"""
-    fixed = {"from": 1, "aae": 1, "al": 3, "de": 3, "tr": 1, "wu8": 2, "wi8": 2, "wu16": 2, "wi16": 2, "wu32": 2, "wi32": 2,
+    fixed = {"lvl": 1, "from": 1, "aae": 1, "al": 3, "de": 3, "tr": 1, "wu8": 2, "wi8": 2, "wu16": 2, "wi16": 2, "wu32": 2, "wi32": 2,
              "wf32": 2, "wb": 2, "ru8": 1, "ri8": 1, "ru16": 1, "ri16": 1, "ru32": 1, "ri32": 1, "rf32": 1, "rb": 2, "ws": 2,
              "ws0": 1, "wp": 2, "wp0": 1, "wl": 2, "wc": 2, "rs": 1, "rp": 1, "rl": 1, "rc": 1, "ds": 1, "dp": 1, "dls": 1,
              "dl": 2, "fl": 1, "ser": 0, "Rseek": 1, "Rskip": 1, "Rru8": 0, "Rri8": 0, "Rru16": 0, "Rri16": 0, "Rru32": 0,
@@ -380,53 +470,74 @@ def render_case(endian, level, ops):
     return " ".join(parts)
 
 
-def expected(line, serializer=None):
-    """list of expected step strings (None entries = not judged by the reference)"""
+def expected(line):
+    """list of expected steps: None (not judged) or dict(res, st, rc, img, re)"""
     endian, level, ops = parse_case(line)
     r = Ref(endian)
     out = []
-    for op, args in ops:
-        if op == "ser" or op == "from":
-            res = serializer(r, op, args) if serializer else None
-            if res is None:
-                out.append(None)
-                if op == "from":
-                    return out + [None] * (len(ops) - len(out))
-                continue
+    for k, (op, args) in enumerate(ops):
+        if op == "from":
+            return out + [None] * (len(ops) - len(out))
+        if op == "lvl":
+            level = int(args[0])
+            res = "ok"
+        elif op == "ser":
+            res = None
+            if r.in_domain():
+                res = "ok:" + B(r.canonical_image()[0])
         else:
             res = r.apply(op, args)
         if res is None:
             out.append(None)
             continue
-        st = r.state(min(level, 1))
-        out.append((res, st, r.expected_rc() if level >= 2 else None))
+        step = {"res": res, "st": r.state(min(level, 1)), "rc": None, "img": None, "re": None}
+        if level >= 2:
+            step["rc"] = r.expected_rc()
+            if r.in_domain():
+                step["img"] = B(r.canonical_image()[0])
+                step["re"] = r.expected_reparsed_state()
+        out.append(step)
     return out
 
 
-def judge(line, impl_out, serializer=None):
+def split_step(got):
+    """implementation step -> dict(base, rc, re, reser, ser)"""
+    d = {"rc": None, "re": None, "reser": None, "ser": None}
+    g = got
+    if " ser=" in g:
+        g, d["ser"] = g.rsplit(" ser=", 1)
+    if " reser=" in g:
+        g, d["reser"] = g.rsplit(" reser=", 1)
+    if " re:" in g:
+        g, d["re"] = g.rsplit(" re:", 1)
+    if " rc=" in g:
+        g, d["rc"] = g.rsplit(" rc=", 1)
+    d["base"] = g
+    return d
+
+
+def judge(line, impl_out, check_image=True):
     """compare implementation output with the reference; returns None or failure text"""
     if impl_out in ("PANIC", "ABORT", "TIMEOUT", "MISSING-OUTPUT"):
         return "implementation %s" % impl_out
-    exp = expected(line, serializer)
-    steps = impl_out.split(" ; ")
+    exp = expected(line)
+    steps = impl_out.split(" ; ") if impl_out != "" else []
     if len(steps) != len(exp):
         return "step count differs (%d vs %d)" % (len(steps), len(exp))
     for i, (got, want) in enumerate(zip(steps, exp)):
         if want is None:
             continue
-        res, st, rc = want
-        # compare result and the s1 part of the state (the serialize image itself is judged elsewhere)
-        g = got
-        ser = None
-        got_rc = None
-        if " ser=" in g:
-            g, ser = g.rsplit(" ser=", 1)
-        if " rc=" in g:
-            g, got_rc = g.rsplit(" rc=", 1)
-        if g != res + st:
-            return "step %d: reference says %r, implementation %r" % (i, (res + st)[:300], g[:300])
-        if rc is not None and ser is not None:
+        d = split_step(got)
+        if d["base"] != want["res"] + want["st"]:
+            return "step %d: reference says %r, implementation %r" % (i, (want["res"] + want["st"])[:300], d["base"][:300])
+        if want["rc"] is not None and d["ser"] is not None:
             # pending c-strings must be where the reference has them once the image is parsed again
-            if ser == "err" or got_rc != rc:
-                return "step %d: pending c-strings: reference says %s, re-parsed image has %s (ser=%s)" % (i, rc, got_rc, (ser or "")[:40])
+            if d["ser"] == "err" or d["rc"] != want["rc"]:
+                return "step %d: pending c-strings: reference says %s, re-parsed image has %s (ser=%s)" % (i, want["rc"], d["rc"], (d["ser"] or "")[:40])
+        if check_image and want["img"] is not None and d["ser"] is not None and d["ser"] != want["img"]:
+            return "step %d: serialize image is not the canonical image of the content: want %s got %s" % (i, want["img"][:400], d["ser"][:400])
+        if want["re"] is not None and d["re"] is not None and d["re"] != want["re"]:
+            return "step %d: archive parsed back from the image differs: want %s got %s" % (i, want["re"][:300], d["re"][:300])
+        if want["img"] is not None and d["reser"] is not None and d["reser"] != "same":
+            return "step %d: parse then re-serialize does not reproduce the image (%s)" % (i, d["reser"][:200])
     return None
